@@ -2324,11 +2324,20 @@ static int record(const std::string &out, long n, const std::string &filter, boo
                 nd.sp->interpolate(a(), b(), s, ps());
                 nd.sp->interpolate(ps(), b(), u, pr2());
                 nd.sp->interpolate(a(), b(), s + (1.0 - s) * u, pq());
+                // "within the space bounds for every t in [0,1]": also at parameters that are no dyadic fractions (a blend
+                // written as a convex combination rounds differently there, one ulp past a bound both states sit on)
+                bool inbS = nd.sp->satisfiesBounds(ps());
+                for (double tx : {0.059, 0.3, 0.77, rng.unit(), rng.unit(), rng.unit()})
+                {
+                    nd.sp->interpolate(a(), b(), tx, pq());
+                    inbS = inbS && nd.sp->satisfiesBounds(pq());
+                }
+                nd.sp->interpolate(a(), b(), s + (1.0 - s) * u, pq());
                 ev = json{{"e", "Interp"}, {"cls", p.cls}, {"fab", fab},
                           {"dab", fx(dab, nf)}, {"d0", fx(D(p0(), a()), nf)}, {"d1", fx(D(p1(), b()), nf)},
                           {"ks", ks}, {"inb", inb}, {"dat", dat}, {"alF", alF}, {"alT", alT},
                           {"s", ksn}, {"u", kun}, {"rep", geoLaws ? fx(D(pr2(), pq()), nf) : 0},
-                          {"inbS", nd.sp->satisfiesBounds(ps())}, {"inbR", nd.sp->satisfiesBounds(pr2())},
+                          {"inbS", inbS}, {"inbR", nd.sp->satisfiesBounds(pr2())},
                           // some interpolant of this probe carries the angle +pi (D2)
                           {"plusPi", pp || hasPlusPiLeaf(nd, ps()) || hasPlusPiLeaf(nd, pr2())}};
                 if (nd.fam == "airplane")
